@@ -492,7 +492,6 @@ def _run_lateral(case):
             return np.zeros((N, N))
         return np.where(v == 0, 0.0, (v - 1) % steps + 1).reshape(N, N) * dt
 
-
     kw = dict(synapse=DeltaCurrent.partialconstructor(1.0), bias=case["bias"], delay=dmax, batch_size=B)
     wm = dm = None
     if case["winit"] is not None:
@@ -514,8 +513,7 @@ def _run_lateral(case):
         layer.train()
         trainer.train()
 
-    stats = dict.fromkeys(["assign_w_diag", "assign_d_diag", "upd_w_diag", "upd_d_diag", "train_diag",
-                           "updates", "steps"], 0)
+    stats = dict.fromkeys(["assign_w_diag", "assign_d_diag", "upd_w_diag", "upd_d_diag", "train_diag"], 0)
     if case["winit"] is not None and np.any(np.diag(w0) != 0):
         stats["assign_w_diag"] += 1
     if dm is not None and np.any(np.diag(d0) != 0):
@@ -550,6 +548,7 @@ def _run_lateral(case):
     inv("construct")
     pend_w, pend_d = [], []  # accumulated (sign, matrix) contributions known to the model
     trained = False  # a trainer contributed since the last update (its value is C08's subject)
+    trained_diag = False  # ... and its pending contribution has a non-zero diagonal
     for k, op in enumerate(case["ops"]):
         name = op[0]
         what = f"op#{k} {name}"
@@ -613,21 +612,19 @@ def _run_lateral(case):
                 layer(torch.tensor(pre), neuron_kwargs={"override": torch.tensor(post)})
                 trainer()
                 tp, tn = conn.updater.weight.pos, conn.updater.weight.neg
-            stats["steps"] += 1
             trained = True
             for t_ in (tp, tn):
                 if t_ is not None and np.any(np.diag(_np(t_)) != 0):
                     stats["train_diag"] += 1
+                    trained_diag = True
                     break
             inv(what)
         elif name == "update":
             dw = sum((s * m for s, m in pend_w), np.zeros((N, N)))
             dd = sum((s * m for s, m in pend_d), np.zeros((N, N)))
-            had_w = bool(pend_w) or trained
             with impl(what):
                 conn.update()
-            stats["updates"] += 1
-            if np.any(np.diag(dw) != 0) or (trained and stats["train_diag"]):
+            if np.any(np.diag(dw) != 0) or trained_diag:
                 stats["upd_w_diag"] += 1
             if delayed and np.any(np.diag(dd) != 0):
                 stats["upd_d_diag"] += 1
@@ -635,9 +632,8 @@ def _run_lateral(case):
             wm = M.lateral_assign(wm + dw)
             if delayed:
                 dm = M.lateral_assign(dm + dd)
-            pend_w, pend_d, trained = [], [], False
+            pend_w, pend_d, trained, trained_diag = [], [], False, False
             inv(what, exact_w=exact_w)
-            del had_w
         else:
             raise ValueError(name)
 
